@@ -112,8 +112,43 @@ def r1(ck, F):
             n += 1
             if other:
                 ck.bad("C14.R1", "tracing-serde visitor writes raw text", where(b.raw["sp"]), "%s::%s uses %s" % (i["self_ty"], m, other), fn=path)
+            # every visited value is handed to the serializer unless an earlier entry already failed: no value is filtered out
+            for p in PathEval(b).run():
+                if p.end != "return":
+                    continue
+                emitted = any(c[1].get("method") in ("serialize_entry", "serialize_field", "serialize_key", "serialize_value") for c in p.calls)
+                failed_before = any(show(c[0]).startswith("is_ok(") and "state" in show(c[0]) and c[1] == 0 for c in p.conds) or \
+                    any(show(c[0]).startswith("is_err(") and "state" in show(c[0]) and c[1] != 0 for c in p.conds)
+                if not emitted and not failed_before:
+                    conds = [(show(c[0])[:50], c[1]) for c in p.conds]
+                    ck.bad("C14.R1", "%s::%s serialises every value it is given" % (i["self_ty"].split("<")[0].rsplit("::", 1)[-1], m), where(b.raw["sp"]),
+                           "a path returns without serialising the value although no earlier entry failed (conditions %s): the field silently disappears from the record" % conds[-3:], fn=path)
     if n:
         ck.ok("C14.R1", "tracing-serde visitors (%d methods) emit values only through serde's serialize_* API" % n)
+    # the JSON span-field visitor collects every value it is given (into the map that finish serialises)
+    nj = 0
+    for i in F.impls:
+        if i.get("trait") != "tracing_core::field::Visit" or not i["self_ty"].startswith(J + "JsonVisitor"):
+            continue
+        for m, path in sorted(i["methods"].items()):
+            b = F.body(path)
+            if b is None:
+                continue
+            nj += 1
+            for p in PathEval(b).run():
+                if p.end != "return":
+                    continue
+                kept = any(c[1].get("method") == "insert" or (c[1].get("method") or "").startswith("record_") for c in p.calls)
+                # by design: the bridge's own bookkeeping fields of a log record (`log.target`, `log.file`, ...) are metadata,
+                # not data, and are skipped
+                if not kept and any("starts_with(name(arg2), 'log.')" in show(c[0]) and c[1] != 0 for c in p.conds):
+                    continue
+                if not kept:
+                    conds = [(show(c[0])[:50], c[1]) for c in p.conds]
+                    ck.bad("C14.R1", "JsonVisitor::%s keeps every value it is given" % m, where(b.raw["sp"]),
+                           "a path returns without inserting the value into the visitor's map (conditions %s)" % conds[-3:], fn=path)
+    if nj:
+        ck.ok("C14.R1", "JsonVisitor's %d record methods insert (or delegate) on every path" % nj)
 
 
 def r2(ck, F):
